@@ -401,6 +401,13 @@ func unmarshal(m *Message, f reflect.Value, avps []*AVP) {
 			f.Set(dv.Convert(fieldType))
 			break
 		}
+		// A grouped AVP kept as the bytes of its members (datatype.Grouped
+		// or []byte, which Marshal accepts): decoded from the wire it is a
+		// *GroupedAVP.
+		if g, ok := avps[0].Data.(*GroupedAVP); ok && fieldType.Elem().Kind() == reflect.Uint8 {
+			f.Set(reflect.ValueOf(g.Serialize()).Convert(fieldType))
+			break
+		}
 
 		// Allocate new slice and copy all items.
 		f.Set(reflect.MakeSlice(fieldType, len(avps), len(avps)))
